@@ -168,7 +168,7 @@ func forEachInnerLoop(p *lang.Process, block []rune, varName string, varValue an
 		return
 	}
 
-	if len(b) == 0 || p.HasCancelled() {
+	if p.HasCancelled() {
 		return
 	}
 
